@@ -155,7 +155,20 @@ def run_direct(case, rec):
             kw = {}
             if cutoff is not None or rng.random() < 0.5:
                 kw["cutoff"] = cutoff
-            matid.geometry.get_displacement_tensor(pos, cell, pbc, return_factors=True, return_distances=True, **kw)
+            # the same call with the arguments in any of the forms the API accepts (pbc as ndarray / list / tuple of
+            # bools or 0/1 integers or one bool; arrays C- or Fortran-ordered, read-only or strided views)
+            pbc_arg, pform = cells.pbc_form(rng, pbc)
+            pos_arg, aform = cells.array_form(rng, pos)
+            if aform == "list":
+                pos_arg, aform = pos, "c"
+            cell_arg, cform = cells.array_form(rng, cell)
+            snap = (pos.copy(), cell.copy())
+            matid.geometry.get_displacement_tensor(pos_arg, cell_arg, pbc_arg, return_factors=True, return_distances=True, **kw)
+            rec.call("arguments_untouched"); rec.judged("arguments_untouched")
+            if not (np.array_equal(np.asarray(pos_arg), snap[0]) and np.array_equal(np.asarray(cell_arg, float), snap[1])):
+                rec.violation("arguments_untouched", "C10|arguments-modified", "get_displacement_tensor changed its input arrays",
+                              geom.structure_witness(pos, cell, pbc))
+            classes.setdefault("pbc_form", []).append(pform); classes.setdefault("array_form", []).append(aform + "/" + cform)
         n_exec += 1
         judged = rec.counter(NAME)["judged"] - before
         if judged > 0 and (pbc.any() or cclass not in ("inf", "None")):
